@@ -15,6 +15,13 @@ def main():
     assert subprocess.run("git -C /repo status --porcelain", shell=True, capture_output=True, text=True).stdout.strip() == "", "/repo not clean"
     subprocess.run("git -C /repo apply %s" % os.path.join(d, "patch.diff"), shell=True, check=True)
     det = meta.get("detected_by", {})
+    # evidence files must come from clean-tree runs: keep what is there and put it back afterwards
+    import shutil, tempfile
+    keep = tempfile.mkdtemp(prefix="evkeep")
+    for p in props:
+        ev = os.path.join(VERIF, "evidence", p + ".json")
+        if os.path.exists(ev):
+            shutil.copy(ev, os.path.join(keep, p + ".json"))
     try:
         for p in props:
             r = subprocess.run("python3 checks/check.py %s quick" % p, shell=True, cwd=VERIF, capture_output=True, text=True)
@@ -24,6 +31,11 @@ def main():
             sys.stdout.flush()
     finally:
         subprocess.run("git -C /repo checkout -- . && git -C /repo clean -fdq src cmd", shell=True)
+        for p in props:
+            k = os.path.join(keep, p + ".json")
+            if os.path.exists(k):
+                shutil.copy(k, os.path.join(VERIF, "evidence", p + ".json"))
+        shutil.rmtree(keep, ignore_errors=True)
     meta["detected_by"] = det
     json.dump(meta, open(meta_p, "w"), indent=1)
 
